@@ -15,7 +15,8 @@ def run(tier, seed):
     from .c17 import add_list
     add_list(rep, "C08")
     rep.explanation = ("Mixed. Deductive: markup == the scanned marker run with its count (hr, heading, fence, lheading), info == src slice, content == getLines of exactly the token's "
-                       "lines with the right indent (fence, code, html_block). Bounded: getLines' own contract (suffix-of-source-line), list/blockquote markup and the code span rule.")
-    rep.trusted_base = STD_TRUST
-    rep.assumptions = ["StateBlock.getLines is under an assumed contract in the deductive part (its effect is monitored by the bounded content oracle)"]
+                       "lines with the right indent (fence, code, html_block). list_block: an item's info is the slice from the item's own line start to its marker (GUARD at the store), markup is the marker character; the marker scanners return positions "
+                       "after ASCII digits + delimiter / a bullet character. Bounded: getLines' own contract (suffix-of-source-line), list/blockquote markup and the code span rule.")
+    rep.trusted_base += STD_TRUST
+    rep.assumptions += ["StateBlock.getLines is under an assumed contract in the deductive part (its effect is monitored by the bounded content oracle)"]
     return rep
